@@ -24,7 +24,9 @@ def runs(prop, tier):
     q = [("G(0..4) x A3, k in {%s}" % ks_q, [["--n", n, "--alpha", "A3", "--ks", ks_q] for n in range(0, 5)]),
          ("G(5) x A2, k in {%s}" % ks_q, [["--n", 5, "--alpha", "A2", "--ks", ks_q]]),
          ("blob grammar K=3,T=2 x patterns U, M3, k in {%s}" % ks_q, [["--grammar", "blobs:3:2", "--alpha", a, "--ks", ks_q] for a in ("U", "M3")]),
-         ("dense families x U", [["--families", "K:6,K:7,wheel:6,prism:4,petersen,Kb:3:4,grid:3:4,cube:3", "--alpha", "U", "--ks", ks_q]])]
+         ("dense families x U", [["--families", "K:6,K:7,wheel:6,prism:4,petersen,Kb:3:4,grid:3:4,cube:3", "--alpha", "U", "--ks", ks_q]]),
+         ("large families (up to 169 vertices; dynamic-bitset validator, Horton reference) x patterns U, M3",
+          [["--families", "wheel:80,grid:9:9,cube:6,K:13,brick:8:9,subgrid:6:6,torus:6:6,Kb:8:8,grid:13:13", "--alpha", a, "--ks", ks_t] for a in ("U", "M3")])]
     if tier == "quick":
         return q
     return q[2:] + [("G(0..4) x A3, k in {%s}" % ks_t, [["--n", n, "--alpha", "A3", "--ks", ks_t] for n in range(0, 5)]),
